@@ -362,7 +362,7 @@ func (vc *VC) oblige(st *State, kind string, goal *Term, props []string, pos str
 		return
 	}
 	o := &Obligation{Name: vc.oblName(kind), Props: props, Func: vc.fnName(), FuncKey: vc.key, Kind: kind, Path: vc.npaths, Pos: pos,
-		Trace: append([]string{}, st.trace...), Goal: goal.S, Labels: map[string]string{}}
+		Trace: append([]string{}, st.trace...), Goal: goal.S, Labels: map[string]string{}, After: st.lastCall}
 	o.Values = append(append([]string{}, vc.valueNames...), vc.extraValues...)
 	for k, v := range vc.valueLabels {
 		o.Labels[k] = v
@@ -606,6 +606,9 @@ func (vc *VC) step(st *State) []*State {
 	}
 	ins := f.block.Instrs[f.idx]
 	vc.curIns = ins
+	if _, isCall := ins.(*ssa.Call); isCall && len(st.frames) == 1 {
+		st.lastCall = vc.site() // the call the top-level function made most recently on this path
+	}
 	switch x := ins.(type) {
 	case *ssa.If:
 		cond := vc.tv(st, f, x.Cond)
